@@ -47,6 +47,17 @@ Hardening pass (blind-spot classes of HARDENING.md)
                         (2,2), (2,2,2); every constructor judged after the caller edited, in place, matrices earlier calls returned
   D regimes             long call histories: > 2600 (thorough 30000) Jones-to-Mueller conversions and constructor calls under
                         precision 64 and > 700 (10000) under precision 32 in one process, the last calls judged
+
+Hardening pass 3 (HARDENING3.md), everything except the propagation adapter (_run_pass3; the adapter has its own magnitude workload)
+  H special values      orientations at every exact multiple of 45 degrees in [-360, 360] x retardances exactly 0, +-pi/2, +-pi,
+                        +-2 pi, 4 pi, and one ulp to either side of each; diattenuation exactly 0 / 1 / 0.5: every constructor (scalar,
+                        shape=, array retardance) against R(-th) diag(1, x) R(th) incl. global phase, group laws, Malus at multiples of
+                        45 degrees, Mueller orthogonality / M00 / Pauli-trace reference; vortex retarders on grids of exact multiples
+                        of 45 degrees for integer and half-integer charges (keys carry /special:theta=k*45deg[,ret=<class>][~1ulp])
+  G magnitudes          jones_to_mueller blind to a global phase and homogeneous of degree 2, multiplicative and orthogonal-up-to-s^4 for
+                        factors 1e-12 ... 1e12 (both broadcast forms), batches with per-element magnitudes judged element by element;
+                        pauli_coefficients / reconstruction / broadcast_kron homogeneous; apply_polarization_optic bilinear
+                        (keys carry /scale:<regime>)
 """
 import math
 
@@ -312,6 +323,7 @@ def run(ctx):
         _run_repeat(ctx)
         _run_long_history(ctx)
         _run_forms(ctx)
+        _run_pass3(ctx)
         _run_adapter_forms(ctx)
         _run_monkeypatch(ctx, saved)
     finally:
@@ -1170,6 +1182,252 @@ def _run_forms(ctx):
                               'after the caller edited a Mueller matrix an earlier call had returned', desc, err=e)
 
 
+# ---- hardening pass 3 (HARDENING3.md) for everything except the propagation adapter -----------------------------------------------
+# H  special values: every orientation that is an exact multiple of 45 degrees in [-360, 360] (as the nearest double) crossed with
+#    retardances exactly 0, +-pi/2, +-pi, +-2 pi, 4 pi, also one ulp to either side of each (continuity: the closed forms are smooth),
+#    diattenuation exactly 0 / 1 / 0.5, Malus at polariser-minus-analyser angles that are exact multiples of 45 degrees, vortex
+#    retarders on theta grids made of exact multiples of 45 degrees.  Every element against its closed form R(-th) diag(1, x) R(th)
+#    (global phase included: "rotating an element equals conjugating it with the rotation matrix"), plus the group laws.
+# G  magnitudes: jones_to_mueller(e^{i phi} J) == jones_to_mueller(J); jones_to_mueller(s J) == s^2 jones_to_mueller(J),
+#    multiplicativity and the Pauli-trace reference for s, t from 1e-12 to 1e12; batches whose elements have different magnitudes
+#    (each element judged relative to its own magnitude); pauli_coefficients and broadcast_kron homogeneous; unitary x magnitude x
+#    phase gives s^4 I; apply_polarization_optic bilinear.
+SPECIAL_THETA = [k * math.pi / 4 for k in range(-8, 9)]
+SPECIAL_RET = [0.0, math.pi, 2 * math.pi, -math.pi, math.pi / 2, -math.pi / 2, -2 * math.pi, 4 * math.pi]
+MAGNITUDES = [1e-12, 1e-9, 1e-6, 1e-3, 1e3, 1e6, 1e9, 1e12]
+REQUIRED = REQUIRED + ['special.closed-form', 'special.laws', 'special.vortex', 'scale.mueller', 'scale.mueller-batch', 'scale.pauli-kron',
+                       'scale.apply-optic']
+RULE = RULE + ('.  Hardening pass 3 (non-adapter): 17 orientations k x 45 deg x 8 special retardances, exact and +-1 ulp, x 3 diattenuations, '
+               'all constructors against closed forms and group laws, vortex retarders on grids of exact multiples of 45 deg (charges '
+               '-2..3 and half-integers); Mueller / Pauli / Kronecker / apply_polarization_optic laws on matrices scaled by unit-modulus '
+               'phases and by 1e-12 ... 1e12, batches with per-element magnitudes')
+ASSUMPTIONS = ASSUMPTIONS + ['special values: an element at an orientation / retardance that is special only to rounding (k pi/4 as a double, '
+                             'pi +- 1 ulp) equals the smooth closed form evaluated at that same double to 1e-12; magnitudes: the Mueller map is '
+                             'homogeneous of degree 2 and blind to a global phase, the Pauli and Kronecker maps are (bi)linear, so every law is '
+                             'judged relative to the magnitude of its own reference (per batch element for mixed batches) at 1e-12']
+
+
+def _ret_label(d):
+    for lab, v in (('0', 0.0), ('pi', math.pi), ('2pi', 2 * math.pi), ('quarter', math.pi / 2), ('4pi', 4 * math.pi)):
+        if abs(abs(d) - v) <= 1e-12:
+            return lab
+    return 'generic'
+
+
+def _law_rel(ctx, monitor, got, ref, mags, key, what, desc, tol=None):
+    """Every batch element relative to its own magnitude `mags` (leading shape of the batch)."""
+    got, ref = np.asarray(got), np.asarray(ref)
+    if got.shape != ref.shape:
+        return ctx.close(monitor, got, ref, key, what, desc)
+    m = np.asarray(mags, dtype=float)
+    m = m.reshape(m.shape + (1,) * (ref.ndim - m.ndim))
+    return law(ctx, monitor, got / m, ref / m, key, what, desc, tol=tol)
+
+
+def _p3_special(ctx, pol, th, d, alpha, near, desc):
+    rc = _ret_label(d)
+    st = '/special:theta=k*45deg' + ('~1ulp' if near else '')       # elements that do not take a retardance
+    sr = f'/special:theta=k*45deg,ret={rc}' + ('~1ulp' if near else '')
+
+    def sfx_of(nm):
+        return sr if nm == 'linear_retarder' else st
+    Rt, Rm = ref_rot(th), ref_rot(-th)
+    with ctx.guard('C20/special/constructors', desc):
+        got = {'jones_rotation_matrix': pol.jones_rotation_matrix(th), 'linear_retarder': pol.linear_retarder(d, th),
+               'half_wave_plate': pol.half_wave_plate(th), 'quarter_wave_plate': pol.quarter_wave_plate(th),
+               'linear_polarizer': pol.linear_polarizer(th), 'linear_diattenuator': pol.linear_diattenuator(alpha, th)}
+        want = {'jones_rotation_matrix': Rt, 'linear_retarder': ref_retarder(d, th), 'half_wave_plate': ref_retarder(math.pi, th),
+                'quarter_wave_plate': ref_retarder(math.pi / 2, th), 'linear_polarizer': ref_diattenuator(0.0, th),
+                'linear_diattenuator': ref_diattenuator(alpha, th)}
+        for nm in got:
+            law(ctx, 'special.closed-form', got[nm], want[nm], f'C20/{nm}/ne-closed-form{sfx_of(nm)}',
+                f'{nm} at an orientation that is a multiple of 45 degrees / a special retardance differs from R(-th) diag(1, x) R(th)', desc)
+        shp = (3,)
+        for nm, b in (('linear_retarder', pol.linear_retarder(d, th, shape=shp)), ('half_wave_plate', pol.half_wave_plate(th, shape=shp)),
+                      ('quarter_wave_plate', pol.quarter_wave_plate(th, shape=shp)), ('linear_polarizer', pol.linear_polarizer(th, shape=shp)),
+                      ('linear_diattenuator', pol.linear_diattenuator(alpha, th, shape=shp))):
+            law(ctx, 'special.closed-form', b, np.broadcast_to(want[nm], shp + (2, 2)), f'C20/{nm}/ne-closed-form{sfx_of(nm)}/shape-arg',
+                f'{nm}(shape=...) at special values differs from the closed form repeated', desc)
+        arr = np.array([d, -d, d])
+        law(ctx, 'special.closed-form', pol.linear_retarder(arr.copy(), th, shape=(3,)), np.stack([ref_retarder(v, th) for v in arr]),
+            f'C20/linear_retarder/ne-closed-form{sr}/array-retardance', 'linear_retarder(array of special retardances) differs from the closed form', desc)
+    with ctx.guard('C20/special/laws', desc):
+        J = got['linear_retarder']
+        law(ctx, 'special.laws', J @ pol.linear_retarder(-d, th), I2, f'C20/linear_retarder/group-law{sr}', 'J(d, th) J(-d, th) != I', desc)
+        law(ctx, 'special.laws', J @ J, pol.linear_retarder(2 * d, th), f'C20/linear_retarder/group-law{sr}', 'J(d, th)^2 != J(2d, th)', desc)
+        law(ctx, 'special.laws', J, pol.jones_rotation_matrix(-th) @ pol.linear_retarder(d) @ pol.jones_rotation_matrix(th),
+            f'C20/linear_retarder/rotation-conjugation{sr}', 'linear_retarder(d, th) != R(-th) linear_retarder(d, 0) R(th)', desc)
+        Hw, Qw, P = got['half_wave_plate'], got['quarter_wave_plate'], got['linear_polarizer']
+        law(ctx, 'special.laws', Hw @ Hw, I2, f'C20/half_wave_plate/group-law{st}', 'HWP(th)^2 != I', desc)
+        law(ctx, 'special.laws', Qw @ Qw, Hw, f'C20/quarter_wave_plate/group-law{st}', 'QWP(th)^2 != HWP(th)', desc)
+        law(ctx, 'special.laws', P @ P, P, f'C20/linear_polarizer/not-idempotent{st}', 'P(th)^2 != P(th)', desc)
+        law(ctx, 'special.laws', got['linear_diattenuator'] @ pol.linear_diattenuator(alpha, th), pol.linear_diattenuator(alpha * alpha, th),
+            f'C20/linear_diattenuator/product-law{st}', 'D(a, th)^2 != D(a^2, th)', desc)
+        # Malus with polariser and analyser both at multiples of 45 degrees (linear_pol_vector takes degrees)
+        kk = int(round(th / (math.pi / 4)))
+        for dk in (0, 1, 2, 3, -1):
+            phi_deg = 45.0 * (kk - dk)
+            e = pol.linear_pol_vector(phi_deg)
+            law(ctx, 'special.laws', float(np.sum(np.abs(P @ e) ** 2)), math.cos(th - math.radians(phi_deg)) ** 2,
+                f'C20/linear_polarizer/malus{st}', '|P(th) e(phi)|^2 != cos^2(th - phi) for th - phi a multiple of 45 degrees', dict(desc, phi_deg=phi_deg), scale=1.0)
+        for nm, U in (('linear_retarder', J), ('half_wave_plate', Hw), ('quarter_wave_plate', Qw)):
+            M = pol.jones_to_mueller(U)
+            ok = law(ctx, 'special.laws', M @ M.T, np.eye(4), f'C20/jones_to_mueller/unitary-not-orthogonal{sfx_of(nm)}', 'unitary Jones matrix: M M^T != I', desc)
+            if ok:
+                law(ctx, 'special.laws', M[0, 0], 1.0, f'C20/jones_to_mueller/M00!=1{sfx_of(nm)}', 'unitary Jones matrix: M00 != 1', desc)
+            refM = ref_mueller(want[nm])
+            ctx.observe('special.laws')
+            if not min(maxabs(M - refM), maxabs(M - D3 @ refM @ D3)) <= TOL * max(1.0, maxabs(refM)):
+                ctx.violation(f'C20/jones_to_mueller/ne-pauli-trace-reference{sfx_of(nm)}', 'Mueller matrix of an element at special values differs from '
+                              '(1/2) tr(s_i J s_j J^H) of its closed form in either S3 sign convention', desc)
+
+
+def _p3_vortex(ctx, pol, g, charge, ret, rot, desc):
+    rc = _ret_label(ret)
+    sfx = f'/special:theta=k*45deg,ret={rc}'
+    grids = [np.array(SPECIAL_THETA), np.array(SPECIAL_THETA[4:13]).reshape(3, 3), np.array(SPECIAL_THETA[g.integers(17)]),
+             np.array([SPECIAL_THETA[int(v)] for v in g.integers(0, 17, 8)]).reshape(2, 4)]
+    for theta in grids:
+        with ctx.guard('C20/vector_vortex_retarder', desc):
+            V = pol.vector_vortex_retarder(charge, theta.copy(), ret, rot)
+            ctx.observe('special.vortex')
+            if maxabs(H(V) @ V - I2) <= TOL:
+                law(ctx, 'special.vortex', V, ref_vortex(charge, theta, ret, rot), f'C20/vector_vortex_retarder/ne-mawet-eq7{sfx}',
+                    'unitary vortex retarder on a grid of multiples of 45 degrees differs from Mawet et al. eq. 7', dict(desc, grid=list(theta.shape)))
+            else:
+                ctx.skip('vortex closed-form comparison: element is not unitary (already reported by the contract)')
+            V0 = pol.vector_vortex_retarder(charge, theta.copy(), ret, 0)
+            law(ctx, 'special.vortex', V, pol.jones_rotation_matrix(-rot) @ V0 @ pol.jones_rotation_matrix(rot),
+                f'C20/vector_vortex_retarder/rotation-conjugation{sfx}', 'vortex(rotate) != R(-rot) vortex(0) R(rot)', dict(desc, grid=list(theta.shape)))
+
+
+def _p3_magnitudes(ctx, pol, g, lead, desc):
+    A, B = rand_c(g, lead + (2, 2)), rand_c(g, lead + (2, 2))
+    U = rand_unitary(g, lead)
+    ones = np.ones(lead)
+    with ctx.guard('C20/jones_to_mueller/scale', desc):
+        MA, MB = pol.jones_to_mueller(A), pol.jones_to_mueller(B)
+        MAB = MA @ MB
+        for phi in (math.pi / 2, math.pi, float(g.uniform(-math.pi, math.pi)), -math.pi / 4):
+            law(ctx, 'scale.mueller', pol.jones_to_mueller(np.exp(1j * phi) * A), MA, 'C20/jones_to_mueller/scale:global-phase',
+                'jones_to_mueller(e^{i phi} J) != jones_to_mueller(J)', dict(desc, phi=phi))
+        for s in MAGNITUDES:
+            t = MAGNITUDES[int(g.integers(len(MAGNITUDES)))]
+            lab = 'tiny' if s < 1 else 'huge'
+            d2 = dict(desc, factors=[s, t])
+            Ms = pol.jones_to_mueller(s * A)
+            _law_rel(ctx, 'scale.mueller', Ms, (s * s) * MA, ones * s * s, f'C20/jones_to_mueller/scale:{lab}/not-homogeneous',
+                     'jones_to_mueller(s J) != s^2 jones_to_mueller(J)', d2)
+            _law_rel(ctx, 'scale.mueller', pol.jones_to_mueller((s * A) @ (t * B)), Ms @ pol.jones_to_mueller(t * B), ones * (s * t) ** 2,
+                     f'C20/jones_to_mueller/scale:{lab}/not-multiplicative', 'M(A B) != M(A) M(B) for matrices of very different magnitude', d2)
+            phi = float(g.uniform(-math.pi, math.pi))
+            MU = pol.jones_to_mueller(s * np.exp(1j * phi) * U)
+            ok = _law_rel(ctx, 'scale.mueller', MU @ np.swapaxes(MU, -1, -2), (s ** 4) * np.broadcast_to(np.eye(4), MU.shape), ones * s ** 4,
+                          f'C20/jones_to_mueller/scale:{lab}/unitary-not-orthogonal', 's e^{i phi} U with U unitary: M M^T != s^4 I', d2)
+            if ok:
+                _law_rel(ctx, 'scale.mueller', MU[..., 0, 0], (s * s) * ones, ones * s * s, f'C20/jones_to_mueller/scale:{lab}/M00',
+                         's e^{i phi} U with U unitary: M00 != s^2', d2)
+            if lead == ():
+                _law_rel(ctx, 'scale.mueller', pol.jones_to_mueller(s * A, broadcast=False), (s * s) * MA, ones * s * s,
+                         f'C20/jones_to_mueller/scale:{lab}/not-homogeneous/broadcast=False', 'jones_to_mueller(s J, broadcast=False) != s^2 M(J)', d2)
+        del MAB
+        # batches whose elements have different magnitudes: every element relative to its own
+        if lead != ():
+            mags = np.array(MAGNITUDES + [1.0])[g.integers(0, len(MAGNITUDES) + 1, lead)]
+            if mags.size > 1:
+                mags.flat[0], mags.flat[-1] = 1e-12, 1.0
+            As = A * mags[..., None, None]
+            Mb = pol.jones_to_mueller(As)
+            ref = np.empty(lead + (4, 4))
+            for ix in np.ndindex(*lead):
+                ref[ix] = ref_mueller(A[ix]) * mags[ix] ** 2
+            ctx.observe('scale.mueller-batch')
+            m2 = (mags ** 2)[..., None, None]
+            e = min(maxabs((Mb - ref) / m2), maxabs((Mb - D3 @ ref @ D3) / m2))
+            if not e <= TOL * max(1.0, maxabs(ref / m2)):
+                ctx.violation('C20/jones_to_mueller/scale:mixed-batch/ne-pauli-trace-reference', 'in a batch whose Jones matrices have very '
+                              'different magnitudes the Mueller matrix of an element differs from (1/2) tr(s_i J s_j J^H), relative to its own '
+                              'magnitude', dict(desc, magnitudes=mags), err=e)
+            _law_rel(ctx, 'scale.mueller-batch', Mb, MA * m2, mags ** 2, 'C20/jones_to_mueller/scale:mixed-batch/not-homogeneous',
+                     'jones_to_mueller of a batch with per-element magnitudes != magnitude^2 x the Mueller matrices of the O(1) batch',
+                     dict(desc, magnitudes=mags))
+    with ctx.guard('C20/pauli/scale', desc):
+        c0 = [np.asarray(c) for c in pol.pauli_coefficients(A)]
+        k0 = pol.broadcast_kron(A, B)
+        for s in MAGNITUDES:
+            t = MAGNITUDES[int(g.integers(len(MAGNITUDES)))]
+            lab = 'tiny' if s < 1 else 'huge'
+            cs = pol.pauli_coefficients(s * A)
+            for i in range(4):
+                _law_rel(ctx, 'scale.pauli-kron', np.asarray(cs[i]), s * c0[i], ones * s, f'C20/pauli/scale:{lab}/not-homogeneous',
+                         'pauli_coefficients(s J) != s pauli_coefficients(J)', dict(desc, factor=s, index=i))
+            rec = sum(np.asarray(ci)[..., None, None] * pol.pauli_spin_matrix(i, shape=lead if lead != () else None) for i, ci in enumerate(cs))
+            _law_rel(ctx, 'scale.pauli-kron', rec, s * A, ones * s, f'C20/pauli/scale:{lab}/reconstruction', 'sum_i c_i sigma_i != J for a tiny / huge J',
+                     dict(desc, factor=s))
+            _law_rel(ctx, 'scale.pauli-kron', pol.broadcast_kron(s * A, t * B), (s * t) * k0, ones * s * t, f'C20/broadcast_kron/scale:{lab}/not-bilinear',
+                     'broadcast_kron(s A, t B) != s t broadcast_kron(A, B)', dict(desc, factors=[s, t]))
+    if len(lead) == 2:            # documented domain: an M x N scalar field and an M x N x 2 x 2 optic
+        with ctx.guard('C20/apply_polarization_optic/scale', desc):
+            field = rand_c(g, lead)
+            for s in MAGNITUDES:
+                t = MAGNITUDES[int(g.integers(len(MAGNITUDES)))]
+                lab = 'tiny' if s < 1 else 'huge'
+                got = pol.apply_polarization_optic((s * field).copy(), t * A)
+                _law_rel(ctx, 'scale.apply-optic', got, (s * t) * (A * field[..., None, None]), ones * s * t,
+                         f'C20/apply_polarization_optic/scale:{lab}', 'apply_polarization_optic(s field, t optic) != s t optic * field[..., None, None]',
+                         dict(desc, factors=[s, t]))
+
+
+def _run_pass3(ctx):
+    from prysm.x import polarization as pol
+    rng = ctx.rng('c20-pass3')
+    k = -1
+    ulps = (0, 1, -1)
+    for ti, th0 in enumerate(SPECIAL_THETA):
+        for di, d0 in enumerate(SPECIAL_RET):
+            for ut in ulps:
+                for ud in ulps:
+                    k += 1
+                    # quick: the exact cross product, and a rotating third of the +-1 ulp neighbours; thorough: everything
+                    if (ut or ud) and ctx.quick and (ti + di + ut + 2 * ud) % 3:
+                        continue
+                    if not ctx.mine(k):
+                        continue
+                    th = float(np.nextafter(th0, math.inf * ut)) if ut else th0
+                    d = float(np.nextafter(d0, math.inf * ud)) if ud else d0
+                    alpha = [0.0, 1.0, 0.5][(ti + di) % 3]
+                    desc = {'wl': 'special-values', 'theta': th, 'theta_over_45deg': ti - 8, 'ret': d, 'alpha': alpha, 'ulp_offsets': [ut, ud],
+                            'class': f'special:theta=k*45deg:ret={_ret_label(d0)}' + (':~1ulp' if (ut or ud) else '')}
+                    ctx.case(desc, nontrivial=not (th == 0 and d == 0))
+                    _p3_special(ctx, pol, th, d, alpha, bool(ut or ud), desc)
+    charges = [2, 1, -1, 0, 3, -2, 0.5, 1.5, -0.5]
+    k = -1
+    for ci, charge in enumerate(charges):
+        for di, ret in enumerate(SPECIAL_RET):
+            k += 1
+            if not ctx.mine(k):
+                continue
+            sub = ctx.subseed(rng)
+            g = np.random.default_rng(sub)
+            rot = SPECIAL_THETA[(3 * ci + di) % 17] if (ci + di) % 2 else 0.0
+            desc = {'wl': 'special-vortex', 'charge': charge, 'retardance': ret, 'rotate': rot, 'subseed': sub,
+                    'class': f'special:vortex:ret={_ret_label(ret)}:{"int" if float(charge).is_integer() else "half"}-charge'}
+            ctx.case(desc)
+            _p3_vortex(ctx, pol, g, charge, ret, rot, desc)
+    leads = [(), (1,), (2,), (3,), (2, 2), (2, 3), (2, 2, 2), (4, 1)]
+    k = -1
+    for rep in range(ctx.pick(3, 400)):
+        for lead in leads:
+            k += 1
+            if not ctx.mine(k):
+                continue
+            sub = ctx.subseed(rng)
+            g = np.random.default_rng(sub)
+            desc = {'wl': 'magnitudes', 'lead': list(lead), 'subseed': sub, 'class': f'scale:lead{len(lead)}d'}
+            ctx.case(desc)
+            _p3_magnitudes(ctx, pol, g, lead, desc)
+
+
 # ---- argument forms of the polarised propagation (hardening pass 2, classes A / E of the adapter workload) -------------------
 # The adapter hands the SAME positional and keyword argument objects to the scalar routine four times.  Every argument is therefore
 # also passed in the other forms the scalar routines accept today (established on /repo @ faa8443, see vp/propforms.py): shift / Q /
@@ -1314,6 +1572,177 @@ def _run_adapter_forms(ctx):
                             'the same argument objects to all four component propagations)', dict(desc, round=rnd))
                     ctx.require('adapter.input-unchanged', np.array_equal(Jf, snap), f'C20/jones_adapter/{fname}/mutates-input',
                                 'jones_adapter modified the Jones field passed in', desc)
+    _run_adapter_scale(ctx)
+
+
+# ---- hardening pass 3 for the adapter workload: class G (element magnitudes, homogeneity), H (special elements), I (sizes) ----------
+# A Jones pupil is not a unit-magnitude array: leakage / cross-talk terms are 1e-6 ... 1e-12 of the diagonal, fields come in any units.
+# Every element is therefore judged ON ITS OWN SCALE (|got_ij - ref_ij| <= 1e-12 max|ref_ij|, an exactly-zero reference element must
+# come out exactly zero): an error of 100 % in a 1e-9 element is invisible at the scale of the whole matrix.
+ADAPTER_MAGNITUDES = (1e-12, 1e-10, 1e-9, 1e-8, 1e-6, 1e-3, 1.0, 1e3, 1e6, 1e9, 1e12)
+ADAPTER_PATTERNS = ('leakage-off-diagonal', 'tiny-diagonal', 'one-tiny-element', 'all-tiny', 'all-huge', 'spread', 'one-zero-element', 'one-sample-element')
+RULE = RULE + ('.  Adapter magnitudes (hardening pass 3): Jones fields whose four elements have different magnitudes between 1e-12 and 1e12 (leakage terms '
+               '1e-9 of the diagonal, tiny diagonal with order-1 off-diagonals, all tiny, all huge, an exactly-zero element, an element with a single '
+               'non-zero sample) through jones_adapter for all five routines, complex128 and complex64, every element judged on its own scale; '
+               'homogeneity of the adapted propagation, ad(s J) = s ad(J), s = 1e-12 ... 1e12; Q exactly 1, prime and 1 x N array sizes; the same '
+               'fields through the functions patched by add_jones_propagation and the Wavefront methods')
+ASSUMPTIONS = ASSUMPTIONS + ['adapter magnitudes: the reference propagates each Jones element on its own with the scalar routine, so adapted and reference element agree '
+                             'to round-off at ANY magnitude: each element is compared at 1e-12 (complex64: 1e-5) of ITS OWN maximum; homogeneity at 1e-11 / 1e-4']
+REQUIRED = REQUIRED + ['adapter.element-magnitudes', 'adapter.homogeneity', 'add_jones_propagation.element-magnitudes']
+
+
+def _law_per_element(ctx, monitor, got, ref, key, what, desc, rtol=1e-12):
+    """Each Jones element on its own scale.  Returns True when all four held."""
+    ctx.observe(monitor)
+    got, ref = np.asarray(got), np.asarray(ref)
+    if got.shape != ref.shape:
+        ctx.violation(key + '/shape', what + f': shape {got.shape} != expected {ref.shape}', desc)
+        return False
+    bad = []
+    for i in range(2):
+        for j in range(2):
+            g, r = got[..., i, j], ref[..., i, j]
+            sc = maxabs(r)
+            err = maxabs(g - r) if np.isfinite(g).all() else float('inf')
+            if not err <= rtol * sc:
+                bad.append({'element': [i, j], 'err': err, 'max_abs_reference': sc, 'max_abs_got': maxabs(g) if np.isfinite(g).all() else None})
+    if bad:
+        ctx.violation(key, what + ' (each Jones element compared on its own scale)', desc, failing_elements=bad, rtol=rtol)
+    return not bad
+
+
+def _magnitude_field(g, shp, pattern, dtype=np.complex128):
+    """A Jones field whose elements have the magnitudes of the pattern; returns (field, magnitudes[2][2])."""
+    mags = [[1.0, 1.0], [1.0, 1.0]]
+    tiny = [1e-12, 1e-10, 1e-9, 3e-9][int(g.integers(4))]
+    if pattern == 'leakage-off-diagonal':
+        mags = [[1.0, tiny], [tiny * 0.5, 1.0]]
+    elif pattern == 'tiny-diagonal':
+        mags = [[tiny, 1.0], [1.0, tiny]]
+    elif pattern == 'one-tiny-element':
+        k = int(g.integers(1, 4))
+        mags[k // 2][k % 2] = tiny
+    elif pattern == 'all-tiny':
+        mags = [[tiny, tiny * 10], [tiny * 0.1, tiny]]
+    elif pattern == 'all-huge':
+        mags = [[1e12, 1e9], [1e10, 1e12]]
+    elif pattern == 'spread':
+        pick = [ADAPTER_MAGNITUDES[int(v)] for v in g.integers(len(ADAPTER_MAGNITUDES), size=4)]
+        mags = [[pick[0], pick[1]], [pick[2], pick[3]]]
+    J = rand_c(g, shp + (2, 2))
+    for i in range(2):
+        for j in range(2):
+            J[..., i, j] *= mags[i][j]
+    if pattern == 'one-zero-element':
+        k = int(g.integers(0, 4))
+        J[..., k // 2, k % 2] = 0
+        mags[k // 2][k % 2] = 0.0
+    elif pattern == 'one-sample-element':
+        k = int(g.integers(1, 4))
+        e = np.zeros(shp, dtype=complex)
+        e.flat[int(g.integers(e.size))] = 1e-9 * (1 + 0.5j)
+        J[..., k // 2, k % 2] = e
+        mags[k // 2][k % 2] = 1e-9
+    return J.astype(dtype), mags
+
+
+def _run_adapter_scale(ctx):
+    """Class G for polarised propagation (all five routines): element magnitudes, homogeneity; plus Q exactly 1, prime / 1 x N sizes."""
+    from prysm.x import polarization as pol
+    from prysm import propagation
+    rng = ctx.rng('c20-adapter-scale')
+    sizes = [(3, 3), (4, 4), (5, 4), (4, 7), (8, 8), (2, 5), (1, 7), (7, 7), (11, 13)]
+    if not ctx.quick:
+        sizes += [(6, 11), (12, 12), (13, 16), (17, 9), (1, 64), (31, 31), (67, 3)]
+    scales = (1e-12, 1e-9, 2.0 ** -40, 1e-6, 1e6, 2.0 ** 30, 1e9, 1e12)
+    k = -1
+    for rep in range(ctx.pick(2, 120)):
+        for fname in PROP_FUNCS:
+            for pattern in ADAPTER_PATTERNS:
+                k += 1
+                if not ctx.mine(k):
+                    continue
+                sub = ctx.subseed(rng)
+                g = np.random.default_rng(sub)
+                shp = sizes[int(g.integers(len(sizes)))]
+                c64 = (k // ctx.nshards) % 4 == 3
+                Jf, mags = _magnitude_field(g, shp, pattern, np.complex64 if c64 else np.complex128)
+                make, what, extra = _adapter_form_case(g, fname, 'tuple', shp)
+                if fname in ('focus', 'unfocus') and (k // ctx.nshards) % 3 == 0:
+                    def make():                      # Q exactly 1: no padding, the routine works on the element as it is
+                        return (1,), {}
+                    extra = {'Q': 1}
+                s = scales[int(g.integers(len(scales)))]
+                desc = dict({'wl': 'adapter-scale', 'fn': fname, 'shape': list(shp), 'pattern': pattern, 'element_magnitudes': mags, 'jones_dtype': str(Jf.dtype),
+                             'subseed': sub, 'class': f'adapter-scale:{fname}:{pattern}:{"c64" if c64 else "c128"}'}, **extra)
+                ctx.case(desc)
+                f = getattr(propagation, fname)
+                try:
+                    ref = _componentwise(f, Jf, make)
+                except Exception as e:  # the scalar routine itself fails on this input: some other property's business
+                    ctx.skip(f'adapter: scalar {fname} itself raises {type(e).__name__} on this input (not a C20 matter)')
+                    continue
+                with ctx.guard(f'C20/jones_adapter/{fname}/scale:element-magnitudes', desc):
+                    ad = pol.jones_adapter(f)
+                    snap = Jf.copy()
+                    args, kw = make()
+                    out = np.array(ad(Jf, *args, **kw), copy=True)
+                    ok = _law_per_element(ctx, 'adapter.element-magnitudes', out, ref, f'C20/jones_adapter/{fname}/scale:element-magnitudes/component-mismatch',
+                                          f'jones_adapter({fname})(J)[..., i, j] != {fname}(J[..., i, j]) for a Jones field whose elements have different magnitudes',
+                                          desc, rtol=1e-5 if c64 else 1e-12)
+                    ctx.require('adapter.input-unchanged', np.array_equal(Jf, snap), f'C20/jones_adapter/{fname}/mutates-input',
+                                'jones_adapter modified the Jones field passed in', desc)
+                    if not ok:
+                        continue
+                    # homogeneity of the adapted propagation
+                    args, kw = make()
+                    outs = np.array(ad((Jf * s).astype(Jf.dtype), *args, **kw), copy=True)
+                    cls = 'tiny' if s < 1 else 'huge'
+                    _law_per_element(ctx, 'adapter.homogeneity', outs, s * out.astype(np.complex128), f'C20/jones_adapter/{fname}/scale:{cls}/not-homogeneous',
+                                     f'jones_adapter({fname}) is linear, but ad(s J) != s ad(J) for s = 1e-12 ... 1e12', dict(desc, s=s), rtol=1e-4 if c64 else 1e-11)
+                    # a scalar (2-D) field of tiny magnitude passes through unchanged
+                    a2 = (rand_c(g, shp) * 1e-10).astype(Jf.dtype)
+                    args, kw = make()
+                    with quiet():
+                        plain = np.asarray(f(a2.copy(), *args, **kw))
+                    args, kw = make()
+                    law(ctx, 'adapter.componentwise', ad(a2, *args, **kw), plain, f'C20/jones_adapter/{fname}/2d-passthrough',
+                        'jones_adapter on a 2-D (scalar) field != the plain routine', desc, scale=maxabs(plain))
+
+
+def _monkeypatch_scale(ctx, saved, enabled, sdesc, label, g):
+    """The magnitude fields through the functions add_jones_propagation patched and through the Wavefront methods."""
+    from prysm import propagation
+    for fi, fname in enumerate(enabled):
+        pattern = ADAPTER_PATTERNS[(fi + ctx.shard + sdesc['step']) % len(ADAPTER_PATTERNS)]
+        shp = [(4, 4), (5, 6), (7, 3)][(fi + sdesc['step']) % 3]
+        Jf, mags = _magnitude_field(g, shp, pattern)
+        make, what, extra = _adapter_form_case(g, fname, 'tuple', shp)
+        desc = dict(sdesc, fn=fname, shape=list(shp), pattern=pattern, element_magnitudes=mags, **extra)
+        ctx.case(desc)
+        try:
+            direct = _componentwise(saved[fname], Jf, make)
+        except Exception as e:
+            ctx.skip(f'adapter: scalar {fname} itself raises {type(e).__name__} on this input (not a C20 matter)')
+            continue
+        key = f'C20/add_jones_propagation/{fname}/{label}/scale:element-magnitudes/ne-componentwise'
+        with ctx.guard(f'C20/add_jones_propagation/{fname}/{label}/scale:element-magnitudes', desc):
+            args, kw = make()
+            _law_per_element(ctx, 'add_jones_propagation.element-magnitudes', getattr(propagation, fname)(Jf, *args, **kw), direct, key,
+                             f'patched {fname} on a Jones field whose elements have different magnitudes is not the component-by-component propagation', desc)
+            args, kw = make()
+            if fname in ('focus', 'unfocus'):
+                w = propagation.Wavefront(Jf, 0.55, 0.1, space='pupil' if fname == 'focus' else 'psf')
+                got = getattr(w, fname)(100.0, *args, **kw).data
+            elif fname == 'angular_spectrum':
+                w = propagation.Wavefront(Jf, args[0], args[1])
+                got = w.free_space(args[2], *args[3:], **kw).data
+            else:
+                w = propagation.Wavefront(Jf, args[2], args[0], space='pupil' if fname.startswith('focus') else 'psf')
+                got = getattr(w, fname)(args[1], args[3], args[4], *args[5:], **kw).data
+            _law_per_element(ctx, 'add_jones_propagation.element-magnitudes', got, direct, key + '/Wavefront-method',
+                             f'Wavefront.{fname if fname != "angular_spectrum" else "free_space"} on Jones-valued data whose elements have different magnitudes is not '
+                             'the component-by-component propagation', desc)
 
 
 # step histories of add_jones_propagation: one per shard (the module keeps whatever state the library keeps between calls; the
@@ -1418,6 +1847,8 @@ def _run_monkeypatch(ctx, saved):
                     law(ctx, 'add_jones_propagation.argument-forms', got, direct, key + '/Wavefront-method',
                         f'Wavefront.{fname if fname != "angular_spectrum" else "free_space"} on Jones-valued data with {what} given as {form} is not the '
                         'component-by-component propagation', desc)
+        # hardening pass 3: element magnitudes through the patched functions and the Wavefront methods
+        _monkeypatch_scale(ctx, saved, enabled, sdesc, label, g)
 
 
 def install_monitors(ctx):
